@@ -75,7 +75,7 @@ func (ec *evalCtx) resolveType(s string) types.Type {
 	case "string":
 		return types.Typ[types.String]
 	case "byte":
-		return types.Typ[types.Uint8]
+		return types.Universe.Lookup("byte").Type()
 	}
 	if ec.pkg == nil {
 		panic(vcErrorf("cannot resolve type %q without a package", s))
@@ -732,6 +732,15 @@ func (ec *evalCtx) evalCall(c *ECall) Val {
 		r := m
 		r.T = sSto(m.T, k.T, v.T)
 		return r
+	case "entry": // entry(x): value of parameter x at function entry (inside loop invariants)
+		id, ok := arg(0).(*EIdent)
+		if !ok {
+			panic(vcErrorf("entry(): expected a parameter name"))
+		}
+		if v, ok := ec.env["entry$"+id.Name]; ok {
+			return v
+		}
+		return ec.lookupIdent(id.Name)
 	case "min":
 		a, b := ec.evalInt(arg(0)), ec.evalInt(arg(1))
 		return mathInt(sIte(sLe(a, b), a, b))
